@@ -191,7 +191,7 @@ func c08GenConfig(r *rand.Rand, h *scen.History, k int) c08Config {
 
 func runC08(c *fw.Ctx) {
 	c08RecoveryPatterns(c)
-	n := c.Pick(600, 30000) / c.NShards
+	n := c.Pick(600, 8000) / c.NShards
 	r := c.Rand(uint64(800 + c.Shard))
 	for i := 0; i < n; i++ {
 		h := genHistory(r, histOpts{Len: 5 + r.IntN(14)})
@@ -439,7 +439,7 @@ func c08StepModes(cfg c08Config) string {
 // each, shared process-wide RSL cache) under the race detector; verdicts must
 // equal the sequential ones.
 func raceC08(c *fw.Ctx) {
-	n := c.Pick(40, 600) / c.NShards
+	n := c.Pick(40, 200) / c.NShards
 	r := c.Rand(uint64(880 + c.Shard))
 	for i := 0; i < n; i++ {
 		h := genHistory(r, histOpts{Len: 6 + r.IntN(10)})
